@@ -1174,6 +1174,10 @@ class App(falcon.app.App):
             if not await self._handle_exception(req, None, ex, params, ws=web_socket):
                 raise
 
+            # NOTE: A custom error handler may return without closing.
+            if not web_socket.closed:
+                await self._ws_cleanup_on_error(web_socket)
+
     def _prepare_middleware(  # type: ignore[override]
         self, middleware: List[object], independent_middleware: bool = False
     ) -> AsyncPreparedMiddlewareResult:
